@@ -150,7 +150,7 @@ theorem eff_diskok {P : Params} (s : Step) {d : Disk} (hd : DiskOK P d) (hs : St
       · intro r' b es hb hp e he hte
         rw [Disk.set_other _ _ (by simp)] at hb; rw [Disk.set_other _ _ (by simp)]
         exact hd.tags r' b es hb hp e he hte
-  | mkdir p | create r n | wr r n b | cancel r n => exact hd
+  | mkdir p | create r n | wr r n b | cancel r n | touch r a h => exact hd
 
 theorem run_step_diskok {P : Params} (s : Step) {d : Disk} (hd : DiskOK P d) (hs : StepOK P s d) :
     DiskOK P (run s.ops d) :=
